@@ -41,7 +41,15 @@ def inscribed_circle_diameter_from_gap(self: ThreeRollPass) -> float:
 @ThreeRollPass.gap
 def gap3_from_height(self: ThreeRollPass) -> float:
     if self.has_set_or_cached("height"):
-        return (self.height / 2 - self.roll.groove.usable_width / 2 / np.sqrt(3) - self.roll.groove.depth) * np.sqrt(3)
+        # inverse of height3: the height is measured on the usable part of the contour, not on the nominal groove depth
+        usable_contour = clip_by_rect(
+            self.roll.contour_line,
+            -self.roll.groove.usable_width / 2,
+            -math.inf,
+            self.roll.groove.usable_width / 2,
+            math.inf,
+        )
+        return (self.height / 2 - self.roll.groove.usable_width / 2 / np.sqrt(3) - usable_contour.bounds[3]) * np.sqrt(3)
 
 
 @ThreeRollPass.gap
